@@ -3,7 +3,7 @@
     M = ChunkModel.v (hchunks.c index arithmetic) and MCacheModel.v (mcache.c), both over gen/Gen_Chunk.v, which is
     regenerated from the C sources on every run. *)
 From Coq Require Import ZArith List Bool String Lia.
-Require Import H4.gen.Gen_Chunk H4.ChunkModel H4.MCacheModel H4.HChunkModel H4.ChunkProofs H4.MCacheProofs H4.HChunkProofs H4.ExtEltModel H4.ExtEltProofs.
+Require Import H4.gen.Gen_Chunk H4.ChunkModel H4.MCacheModel H4.HChunkModel H4.ChunkProofs H4.MCacheProofs H4.HChunkProofs H4.ExtEltModel H4.ExtEltProofs H4.HAidModel H4.HAidProofs.
 Import ListNotations.
 Local Open Scope Z_scope.
 
@@ -149,6 +149,26 @@ Proof.
 Qed.
 Print Assumptions call_skeletons_as_modelled.
 
+(** access_ids_see_stream.  Several access ids attached to one chunked element at the same time (the chunk indices,
+    the chunk table and the cache are shared by all of them, only the position is per access id; HAidModel.v): for
+    EVERY interleaved history of Hseek / Hread / Hwrite over any number of access ids, inside the element, every read
+    returns exactly the bytes of the one byte stream at that access id's OWN position, every write overwrites exactly
+    those, positions advance per access id -- i.e. the run equals the run of the specification "one stream, one
+    position per id" ([sp_run]), for every geometry, cache size and initial page map, and whatever the shared indices
+    [ix0] held before.  This is what recomputing the indices from access_rec->posn at the start of HMCPread/HMCPwrite
+    (pinned by call_skeletons_as_modelled) buys; see [stale_shared_indices_are_wrong] for the model without it. *)
+Theorem access_ids_see_stream : forall nt dd, geometry_ok nt dd ->
+  forall maxc (s0 : fstore) ix0 naids os,
+    pages_ok nt dd s0 ->
+    aops_ok nt (total dd) (stream_of nt dd s0) (repeat 0 naids) os ->
+    exists x', aop_run nt dd true (mkae (mcache_open maxc (npg dd), s0) ix0 (repeat 0 naids)) os =
+               Some (x', snd (sp_run nt (stream_of nt dd s0) (repeat 0 naids) os)) /\
+      forall q, 0 <= q < total dd * nt ->
+        stream_of nt dd (view (fst (ae_st x')) (snd (ae_st x'))) q =
+        fst (fst (sp_run nt (stream_of nt dd s0) (repeat 0 naids) os)) q.
+Proof. exact aid_refines_stream_lemma. Qed.
+Print Assumptions access_ids_see_stream.
+
 (** fill_lookup_uniform.  The chunked layout decides "this image has a user-defined fill value" exactly as the
     contiguous read and write paths do (regenerated condition texts): index-or-FAIL compared with FAIL. *)
 Theorem fill_lookup_uniform_across_layouts :
@@ -212,6 +232,37 @@ Example external_write_near_the_end :
   x_length (fst (hxp_write x (fun _ => 0) [1; 2])) = 12 /\ snd (hxp_write x (fun _ => 0) [1; 2]) 309 = 2 /\
   snd (hxp_write x (fun _ => 0) [1; 2]) 299 = 0.
 Proof. vm_compute. repeat split; reflexivity. Qed.
+
+(** two access ids on a 5x7 dataset of 2-byte elements in 2x3 chunks, cache of one page: id 0 writes, seeks; id 1 seeks
+    elsewhere; id 0 reads without a new seek *)
+Example two_access_ids_history :
+  let dd := [mk_dim 5 2; mk_dim 7 3] in
+  let s0 : fstore := fun _ => repeat 9 12 in
+  let os := [AWrite 0 [1;2;3;4;5;6]; ASeek 0 1; ASeek 1 20; ARead 1 2; ARead 0 3; AWrite 1 [7;8]; ARead 0 1] in
+  aops_ok 2 (total dd) (stream_of 2 dd s0) [0; 0] os /\
+  snd (sp_run 2 (stream_of 2 dd s0) [0; 0] os) = [[]; []; []; [9;9;9;9]; [3;4;5;6;9;9]; []; [9;9]] /\
+  (match aop_run 2 dd true (mkae (mcache_open 1 (npg dd), s0) ([], []) [0; 0]) os with
+   | Some (_, outs) => outs = [[]; []; []; [9;9;9;9]; [3;4;5;6;9;9]; []; [9;9]]
+   | None => False end).
+Proof.
+  cbv zeta. split; [|split].
+  - simpl. repeat split; try lia; try (exists 3; split; [reflexivity|vm_compute; congruence]);
+      try (exists 1; split; [reflexivity|vm_compute; congruence]); vm_compute; congruence.
+  - vm_compute. reflexivity.
+  - vm_compute. reflexivity.
+Qed.
+
+(** the same history through a model that trusts the shared indices (recompute = false): id 0's read after id 1's seek
+    returns the bytes at id 1's position -- the behaviour of the seeded change C04-8 *)
+Example stale_shared_indices_are_wrong :
+  let dd := [mk_dim 5 2; mk_dim 7 3] in
+  let s0 : fstore := fun _ => repeat 9 12 in
+  let os := [AWrite 0 [1;2;3;4;5;6]; ASeek 0 1; ASeek 1 20; ARead 0 2] in
+  (match aop_run 2 dd true (mkae (mcache_open 1 (npg dd), s0) ([], []) [0; 0]) os with
+   | Some (_, outs) => nth 3 outs [] = [3;4;5;6] | None => False end) /\
+  (match aop_run 2 dd false (mkae (mcache_open 1 (npg dd), s0) ([], []) [0; 0]) os with
+   | Some (_, outs) => nth 3 outs [] <> [3;4;5;6] | None => True end).
+Proof. cbv zeta. split; vm_compute; [reflexivity | congruence]. Qed.
 
 Example stream_example :
   chunk_read_elem 1 [mk_dim 5 2; mk_dim 7 3]
